@@ -584,7 +584,7 @@ OCTET_STRING_encode_der(const asn_TYPE_descriptor_t *td, const void *sptr,
 
 	/* The last octet should be stripped off the unused bits */
 	if(fix_last_byte) {
-		uint8_t b = st->buf[st->size-1] & (0xff << st->bits_unused);
+		uint8_t b = st->buf[st->size-1] & (0xff << (st->bits_unused & 0x07));
 		ASN__CALLBACK(&b, 1);
 	}
 
